@@ -129,6 +129,20 @@ func loadWorld(dir string, patterns []string, minPkgs int, overlay map[string][]
 			}
 		}
 	}
+	// declared init functions ("init#1", ...) are not package members: reach them through the synthetic initialiser
+	for _, sp := range spkgs {
+		if ini := sp.Func("init"); ini != nil {
+			for _, b := range ini.Blocks {
+				for _, ins := range b.Instrs {
+					if c, ok := ins.(*ssa.Call); ok {
+						if callee := c.Call.StaticCallee(); callee != nil && callee.Pkg == sp && strings.HasPrefix(callee.Name(), "init#") {
+							w.addFn(callee)
+						}
+					}
+				}
+			}
+		}
+	}
 	sort.Slice(w.srcFns, func(i, j int) bool { return w.srcFns[i].Pos() < w.srcFns[j].Pos() })
 	return w, nil
 }
@@ -233,6 +247,9 @@ func fnName(f *ssa.Function) string {
 			return fnName(f.Parent()) + n[i:]
 		}
 		return fnName(f.Parent()) + "$" + n
+	}
+	if strings.HasPrefix(f.Name(), "init#") && f.Pkg != nil {
+		return f.Pkg.Pkg.Path() + "." + f.Name()
 	}
 	if obj, ok := f.Object().(*types.Func); ok && obj != nil {
 		return normName(obj.FullName())
